@@ -69,6 +69,10 @@ CHECKS = {
             "mutation-bounded exhaustive enumeration of decoder inputs (every truncation, bit flip, byte substitution, OBU-level edit, size-field edit and splice of valid seed streams; all short byte strings) executed on the real decoder under ASan+UBSan with in-process fault capture",
             "Every input within mutation distance 1 of each seed stream, in both framings and both protocols (corrupt unit last / valid units follow), is decoded by a fresh decoder instance followed by teardown; any fault, sanitizer report, hang or teardown failure is a violation keyed by (kind, function).",
             "SVT-encoded seeds only (3 quick, 5 thorough); mutation distance 1; single-threaded decoder", "4/C10"),
+    "C16": ("faultinj_h (asan+lsan)", "fault_enumeration",
+            "exhaustive single-fault enumeration: for every k, fail exactly the k-th allocation / OS-object creation made by library code during session set-up (link-time interposition), in a forked ASan+LSan child",
+            "Quick: first and last dynamic occurrence of every distinct allocation context (1202 contexts) of the encoder set-up and every fault point of the decoder set-up + first frame; thorough: every one of the ~91k encoder fault points. The failing call must return an error code, teardown must return, no crash, leak or thread left.",
+            "single faults only; encoder 64x64 lp 1 without pictures; faults in calls made from libc itself are not modelled", "4/C16"),
 }
 
 NOT_YET = {}
